@@ -694,6 +694,72 @@ def aggregator_object_in_both_roles_and_type_keys(col):
                 break
 
 
+def items_that_are_equal_but_keyed_apart_and_empty_items(col):
+    """every item is routed by what the key specs yield for THAT item: items that are equal and hash alike (1, True, 1.0; 0.0, -0.0) but
+    that the key tells apart, keys that depend on the position of the item; and leaves fed only empty items (empty mappings to a Merge,
+    empty lists to a Flatten) hold the empty result, like the loop"""
+    import itertools as it
+    items = [1, True, 1.0, 0, False, 0.0, -0.0, 1, True]
+
+    def loop1(key):
+        out = {}
+        for x in items:
+            out.setdefault(key(x), []).append(x)
+        return out
+
+    def same_typed(a, b):
+        if type(a) is not type(b):
+            return False
+        if isinstance(a, dict):
+            return list(map(repr, a)) == list(map(repr, b)) and all(same_typed(a[k], b[k]) for k in a)
+        if isinstance(a, list):
+            return len(a) == len(b) and all(same_typed(x, y) for x, y in zip(a, b))
+        return repr(a) == repr(b)
+    cases = [('key type', lambda: Group({type: [T]}), loop1(type)), ('key repr', lambda: Group({repr: [T]}), loop1(repr)),
+             ('key T.hex() for floats', None, None),
+             ('two levels: type then repr', lambda: Group({type: {repr: [T]}}), {t: {r: [x for x in items if type(x) is t and repr(x) == r] for r in dict.fromkeys(repr(x) for x in items if type(x) is t)}
+                                                                                 for t in dict.fromkeys(type(x) for x in items)}),
+             ('key type, leaf First', lambda: Group({type: First()}), {t: next(x for x in items if type(x) is t) for t in dict.fromkeys(type(x) for x in items)}),
+             ('key type, leaf Count', lambda: Group({type: Count()}), {t: sum(1 for x in items if type(x) is t) for t in dict.fromkeys(type(x) for x in items)})]
+    for desc, mk, want in cases:
+        if mk is None:
+            fl = [0.0, -0.0, 0.0, 1.0, -0.0]
+            got = call(G, fl, Group({T.hex(): [T]}))
+            want = {}
+            for x in fl:
+                want.setdefault(x.hex(), []).append(x)
+        else:
+            got = call(G, list(items), mk())
+        col.case(('equal-items-keyed-apart', desc), True)
+        col.count('glom_evaluations')
+        if not (got.ok and same_typed(got.value, want)):
+            col.violation('C16/equal-items-routed-alike-although-the-key-differs', '%s over %r: %r ; the loop gives %r' % (desc, items, got, want), None)
+    # a key that depends on the position (chunking by a counter) over repeated values
+    for n in (4, 7):
+        c = it.count()
+        got = call(G, [5] * n, Group({(lambda x: next(c) // 2): [T]}))
+        want = {}
+        for i in range(n):
+            want.setdefault(i // 2, []).append(5)
+        col.case(('positional-key', n), True)
+        col.count('glom_evaluations')
+        if not (got.ok and got.value == want):
+            col.violation('C16/equal-items-routed-alike-although-the-key-differs', 'chunking %r by a counting key: %r ; the loop gives %r' % ([5] * n, got, want), None)
+    empties = [('Group(Merge()) over empty mappings first', [{}, {}, {'a': 1}], lambda: Group(Merge()), {'a': 1}),
+               ('Group(Merge()) over only empty mappings', [{}, {}], lambda: Group(Merge()), {}),
+               ('Group({len: Merge()})', [{}, {'a': 1}, {}], lambda: Group({len: Merge()}), {0: {}, 1: {'a': 1}}),
+               ('Group(Limit(2, Merge()))', [{}, {}, {'a': 1}], lambda: Group(Limit(2, Merge())), {}),
+               ('Group({len: Flatten()})', [[], [1], []], lambda: Group({len: Flatten()}), {0: [], 1: [1]}),
+               ('Group(Flatten()) over only empty lists', [[], []], lambda: Group(Flatten()), []),
+               ('Group({bool: Sum()}) over zeros', [0, 0, 3], lambda: Group({bool: Sum()}), {False: 0, True: 3})]
+    for desc, data, mk, want in empties:
+        got = call(G, data, mk())
+        col.case(('empty-items', desc), True)
+        col.count('glom_evaluations')
+        if not (got.ok and got.value == want and type(got.value) is type(want)):
+            col.violation('C16/differs-from-loop:leaf-fed-only-empty-items', '%s over %r: %r ; the loop gives %r' % (desc, data, got, want), None)
+
+
 def run(ctx):
     col, rng = ctx.col, ctx.rng
     col.require('glom_evaluations', 1000)
@@ -706,5 +772,6 @@ def run(ctx):
         partial_orders(col)
         empty_results_are_per_evaluation(col)
         aggregator_object_in_both_roles_and_type_keys(col)
+        items_that_are_equal_but_keyed_apart_and_empty_items(col)
     for i in range(ctx.n(3000, 30000)):
         one_case(col, rng)
